@@ -7,3 +7,10 @@ func raiseFromMappedLine(tok string) {
 //line /verif/sim/internal/world/linefixture.tmpl:4
 	panic(tok)
 }
+
+// raiseFromMissingFile panics from a position that a //line directive maps into a file that is
+// not there (template-generated code, a binary running without its sources).
+func raiseFromMissingFile(tok string) {
+//line /verif/sim/internal/world/views/missing-page.templ:12
+	panic(tok)
+}
